@@ -94,6 +94,20 @@ pub fn gen(seed: u64, b: i64, nops: usize) -> Value {
             ops.push(json!({"op": "slowread", "ctx": c, "last": -2, "lim": lim, "k": kk, "n": n}));
             t += n;
             k = 0;
+        } else if r < 55 && !stored.is_empty() {
+            // a frame the store has dropped by itself comes back: let the time TTLs run out, read (the expired frames are
+            // handed to the collector), drain, import one of them again as it was, read again - it is owed to the collector again
+            let id = stored[rng.gen_range(0..stored.len())];
+            t += 4;
+            k = 0;
+            ops.push(json!({"op": "tick", "n": 4}));
+            ops.push(json!({"op": "read", "path": if rng.gen_bool(0.5) { "sync" } else { "stream" }, "ctx": -1, "last": -2, "lim": -1}));
+            ops.push(json!({"op": "drain"}));
+            ops.push(json!({"op": "reimport", "id": id}));
+            ops.push(json!({"op": "read", "path": if rng.gen_bool(0.5) { "sync" } else { "stream" }, "ctx": -1, "last": -2, "lim": -1}));
+            if rng.gen_bool(0.5) {
+                ops.push(json!({"op": "drain"}));
+            }
         } else if r < 60 {
             t += 1;
             k = 0;
